@@ -247,9 +247,10 @@ P.assumptions = ['machine arithmetic treated as mathematical (IEEE float/double 
                  'sin(a) and cos(a) denote the same uninterpreted applications in code and clause; no trigonometric identity beyond the '
                  'built-in ground axioms sin^2+cos^2=1 and sqrt(x)^2=x (x>=0) is assumed in any requires']
 P.not_covered = [
-    'decompose and the round trip recompose(decompose(M)) == M: not eligible for real-arithmetic execution ("dynamic GEP index": '
-    'Row[i][i] / Orientation[i + off] with a data-dependent i in the quaternion extraction), plus epsilon comparisons and a '
-    'Gram-Schmidt chain of four square roots; one attempt made, only recompose alone (closed form) is under contract',
+    'decompose and the round trip recompose(decompose(M)) == M: two attempts.  The data-dependent indices Row[i][i] / Orientation[i + off] are '
+    'executed since tools/ll2smt.py has multi-pointers, but with the Gram-Schmidt chain of four square roots and the divisions by them z3 '
+    '(default and nlsat) answers unknown even for Scale.x^2 == |column 0|^2 (proposed/C09_decompose_attempt.py.txt); only recompose alone '
+    '(closed form) is under contract.  The seeded change seeded/C09 (skew sign of mirrored matrices) is therefore NOT detected',
     'recompose<double>: does not compile against the unchanged /repo (glm::mat4 hard-coded in the body; finding, patch '
     'proposed/C09_recompose_generic.patch); the f64 contract is generated only with C09_RECOMPOSE_F64=1',
     'gtx/transform2 scaleBias (both overloads): returns indeterminate off-diagonal entries on the unchanged /repo (finding, patch '
